@@ -53,7 +53,7 @@ Verdict(e) ==
     LET AA == Aof(e)  GG == Gof(e)  inp == Inp(e)  out == Out(e)  stem == StemStr(e) IN
     IF PreNote(e) # "" THEN "ok"
     ELSE IF \E i \in DOMAIN e.files : ~e.files[i].ok THEN "Readable"
-    ELSE IF Conflict(AA) THEN (IF P_Refused(AA, e.raised, out) THEN "ok" ELSE "Refused|" \o (IF e.raised = "" THEN "not_raised" ELSE e.raised) \o "|" \o CrashDiag(e))
+    ELSE IF Conflict(AA) THEN (IF P_Refused(AA, e.raised, out) THEN "ok" ELSE IF e.raised = "" THEN "Refused|not_raised" ELSE "Refused|" \o e.raised \o "|" \o CrashDiag(e))
     ELSE IF ~P_NoCrash(AA, e.raised) THEN "NoCrash|" \o e.raised \o "|" \o CrashDiag(e)
     ELSE IF ~P_Files(GG, stem, out) THEN "Files|" \o (IF BamTwice(e) /\ GG # {""} THEN "bam_twice_in_path" ELSE "other")
     ELSE IF ~P_NoStrangers(inp, out) THEN "NoStrangers"
